@@ -608,6 +608,7 @@ func (fc *fnCtx) phis(b *ssa.BasicBlock, st *State) {
 		}
 		var t string
 		first := true
+		maybeElt := false
 		for i := len(b.Preds) - 1; i >= 0; i-- {
 			p := b.Preds[i]
 			if fc.exits[p] == nil {
@@ -615,7 +616,13 @@ func (fc *fnCtx) phis(b *ssa.BasicBlock, st *State) {
 			}
 			v := fc.get(phi.Edges[i])
 			if v.Addr != nil {
-				bail("phi of field/element address")
+				var ok bool
+				if v, ok = fc.materialize(v); !ok {
+					bail("phi of field address")
+				}
+			}
+			if v.MaybeElt {
+				maybeElt = true
 			}
 			if first {
 				t = v.T
@@ -627,7 +634,11 @@ func (fc *fnCtx) phis(b *ssa.BasicBlock, st *State) {
 		if first {
 			t = fc.so.zero(phi.Type())
 		}
-		fc.define(phi, t, phi.Type())
+		d := fc.define(phi, t, phi.Type())
+		if maybeElt {
+			d.MaybeElt = true
+			fc.vals[phi] = d
+		}
 	}
 }
 
@@ -773,7 +784,10 @@ func (fc *fnCtx) loopHeader(li *loopInfo, st *State) {
 			}
 			v := fc.get(phi.Edges[i])
 			if v.Addr != nil {
-				bail("phi of field/element address")
+				var ok bool
+				if v, ok = fc.materialize(v); !ok {
+					bail("phi of field address")
+				}
 			}
 			if first {
 				t = v.T
@@ -819,6 +833,12 @@ func (fc *fnCtx) loopHeader(li *loopInfo, st *State) {
 	st.alloc = a2
 	for _, phi := range phis {
 		v := fc.freshVal(st, fc.fn.Name()+"."+phi.Name()+"."+phi.Comment, phi.Type())
+		// a loop-carried pointer may hold the address of a slice element
+		for _, e := range phi.Edges {
+			if _, isIdx := e.(*ssa.IndexAddr); isIdx {
+				v.MaybeElt = true
+			}
+		}
 		fc.vals[phi] = v
 	}
 	// auto invariant for range-index loops: -1 <= i
@@ -921,7 +941,16 @@ func (fc *fnCtx) backEdge(p *ssa.BasicBlock, st *State, cond string, li *loopInf
 	fc.assume(st2, cond)
 	env := fc.envAt(st2, fc.entry)
 	env.useLocals = true
-	env.loopVars = fc.loopVarMap(phis, func(ph *ssa.Phi) string { return fc.get(ph.Edges[idx]).T })
+	env.loopVars = fc.loopVarMap(phis, func(ph *ssa.Phi) string {
+		v := fc.get(ph.Edges[idx])
+		if v.Addr != nil {
+			if m, ok := fc.materialize(v); ok {
+				return m.T
+			}
+			bail("loop-carried field address")
+		}
+		return v.T
+	})
 	kind := fmt.Sprintf("loop%d.inv", li.ord)
 	for _, c := range spec.Invariants {
 		fc.oblige(st2, kind+".pres", fc.evalClause(env, c), b.Instrs[0].Pos(), clauseProps(c, fc.propsAll), c.Text)
